@@ -738,6 +738,13 @@ class Connection:
 
     # -- statements
     def execute(self, sql, params=()):
+        r = self._execute(sql, params)
+        if self.db.world is not None and sql.lstrip()[:8].upper() in ('COMMIT', 'ROLLBACK'):
+            # a second event right after a transaction has ended: the point "statement done, next Python statement not yet run"
+            self.db.world.event('sql', 'after ' + sql.strip().upper(), self)
+        return r
+
+    def _execute(self, sql, params=()):
         db = self.db
         if self.closed:
             raise ProgrammingError('Cannot operate on a closed database.')
